@@ -164,7 +164,10 @@ func Shorten(reg *Registry, m Mapping) mapper.Mapper[*Account] {
 		splitPos := a.Level() - suffix
 		ss := a.Segments()
 		pref, suff := ss[:splitPos], ss[splitPos:]
-		return reg.MustGetPath(append(pref[:level], suff...))
+		segments := make([]string, 0, level+len(suff))
+		segments = append(segments, pref[:level]...)
+		segments = append(segments, suff...)
+		return reg.MustGetPath(segments)
 	}
 }
 
